@@ -140,7 +140,39 @@ pub(crate) fn m_css_progress() {
     }
 }
 
+/// Descendant / child combinators never accept the element itself as its own ancestor; negative
+/// nth-child steps keep their sign (public API, rich colours).
+pub(crate) fn m_descendant_self() {
+    let _which: u8 = kani::any();
+    let coloured = |css: &str, html: &str| -> Vec<String> {
+        let lines = crate::config::rich().add_css(css).expect("css").lines_from_read(html.as_bytes(), 80).expect("renders");
+        let mut out = Vec::new();
+        for l in lines {
+            for ts in l.tagged_strings() {
+                if ts.tag.iter().any(|a| matches!(a, crate::render::RichAnnotation::Colour(_))) {
+                    for w in ts.s.split_whitespace() {
+                        out.push(w.to_string());
+                    }
+                }
+            }
+        }
+        out
+    };
+    let html = "<ul><li class=\"item\">outer <ul><li class=\"item\">inner</li></ul></li></ul><p class=\"a b\">solo</p>";
+    let got = coloured("li li { color: #f00; }", html);
+    assert!(got == vec!["inner".to_string()], "li li coloured {:?}", got);
+    let got = coloured(".a .b { color: #f00; }", html);
+    assert!(got.is_empty(), ".a .b coloured {:?}", got);
+    let got = coloured("ul > li > ul > li { color: #f00; }", html);
+    assert!(got == vec!["inner".to_string()], "child chain coloured {:?}", got);
+    let items = "<div><p>i1</p><p>i2</p><p>i3</p><p>i4</p><p>i5</p><p>i6</p><p>i7</p></div>";
+    let got = coloured("p:nth-child(-2n+5) { color: #f00; }", items);
+    assert!(got == vec!["i1".to_string(), "i3".to_string(), "i5".to_string()], "-2n+5 coloured {:?}", got);
+    let got = coloured("p:nth-child(-n+2) { color: #f00; }", items);
+    assert!(got == vec!["i1".to_string(), "i2".to_string()], "-n+2 coloured {:?}", got);
+}
+
 crate::verif_common::registry! {
-    m_css_progress, m_nth_parse, m_nth_child,
+    m_descendant_self, m_css_progress, m_nth_parse, m_nth_child,
     s3_selector_specificity,
 }
